@@ -1,19 +1,38 @@
 import TaskModel.Race.Model
+import TaskModel.Race.Threads
+import TaskModel.Race.Table
 import TaskModel.Gen.Access
 /-!
 # C18 — Concurrent execution is free of data races (lockset discipline; partial by scope)
 
-What is proved: over the access table regenerated from the current source on every run,
-every pair of conflicting accesses that can happen during concurrent task execution on a
-non-confined object holds a common mutex or is ordered by the `done` channel.  A finite
-table checked completely by the kernel (`decide`) is a proof about that abstraction.
+What is proved.
+
+1. *Semantics of the discipline* (`TaskModel.Race.Threads`): in a model of goroutines running
+   sequences of `lock` / `unlock` / `access` / `close` / `recv` under mutex and channel
+   semantics, a program whose conflicting access positions all share a statically held mutex
+   (`heldAt`: locked and not yet unlocked, the extractor's rule) or are ordered by the close of
+   a channel has NO reachable state with two threads at conflicting accesses — any number of
+   threads, any interleaving, any length (`C18_no_race_state`, `C18_chan_ordered`).
+2. *The table* regenerated from the current source on every run passes the discipline
+   (`C18_lockset`, by `decide`), so (1) applies to it: `C18_no_race_state_table` (any program
+   whose access positions are rows of the table) and `C18_no_race_state_rows` (any number of
+   threads running the critical sections of any rows).
+3. *The inputs of the table are obligations, not trusted constants*: which functions only run
+   while the program is single-threaded is CHECKED against the static call graph
+   (`setup_edges_reviewed`, `no_setup_function_in_run_phase`); the confined types against a
+   syntactic escape search (`confined_no_escape`); the channel exemption is computed from the
+   ordering facts about `startExecution` (`chanSync_is`, `chanSync_ordered`); copiers do not
+   return their argument (`copiers_return_fresh`) and the compiled task holds only fresh copies
+   (`compiled_task_holds_copies`).
+
 (Lockset rules of the extractor: a mutex is held from `Lock` to `Unlock` in source order, an
 `Unlock` inside a block that ends with `return` ends it for that block only, and a mutex held at
 every call site of an unexported, call-only helper is held inside it — `execution.waitsFor`.)
 What is not: the Go memory model, accesses through interfaces/closures the syntactic
-lockset cannot see, third-party code.  The search half is real: the harness is built with
-`-race` and runs concurrent workloads (domain `race`); a report is a violation with the
-report as replay.
+lockset cannot see, per-object aliasing beyond the facts above, third-party code.  The search
+half is real: generated concurrent workloads run under the race detector, in-process with
+seeded delays and through the `-race` CLI (domain `race`); a report is a violation whose
+replay is the workload.
 -/
 namespace Props.C18
 open TaskModel.Race
@@ -38,6 +57,178 @@ theorem C18_matrix_rows_private : TaskModel.Gen.Access.itemsFromForCopiesMatrix 
 
 /-- the table is not empty: the classification did not throw everything away -/
 theorem C18_table_nonempty : table.length ≥ 8 ∧ TaskModel.Gen.Access.totalAccesses ≥ 500 := by decide
+
+/-! ## the phase claims, checked against the call graph -/
+
+/-- `hash.Hash` hands the task definition to `hashstructure.Hash` as an `any`; the call-graph rule
+"a value converted to the empty interface may have any of its methods called" then yields every
+method of `*ast.Task`, `UnmarshalYAML` among them.  hashstructure walks exported fields by reflection
+and calls only `Hash()` / `HashInclude` methods; nothing decodes YAML here. -/
+def edge_hash_unmarshal : String × String := ("internal/hash:Hash", "taskfile/ast:Task.UnmarshalYAML")
+
+/-- `Run` prints the task list when a requested task does not exist — in its first loop, before any
+task has been started (`ListTasks` compiles the tasks in goroutines of its own and waits for them). -/
+def edge_run_listTasks : String × String := ("task:Executor.Run", "task:Executor.ListTasks")
+
+/-- watch mode starts after `g.Wait()` of the regular calls; it is outside every model of this framework. -/
+def edge_run_watch : String × String := ("task:Executor.Run", "task:Executor.watchTasks")
+
+/-- the reviewed call edges from run-phase functions into functions classified set-up-only -/
+def reviewedSetupEdges : List (String × String) := [edge_hash_unmarshal, edge_run_listTasks, edge_run_watch]
+
+/-- **Phase claims are checked**: the call edges from functions reachable from `Executor.Run` /
+`Executor.RunTask` into set-up-classified functions, regenerated from the call graph of the current
+tree, are exactly the reviewed ones.  (A lazily initialised field — `GetTask → setupFuzzyModel` —
+shows up here as a new edge.) -/
+theorem setup_edges_reviewed : TaskModel.Gen.Access.setupReachedFromRun = reviewedSetupEdges := by decide
+
+/-- … and no set-up-classified function is reachable from the run roots through an unreviewed edge
+(if one were, its accesses would be in `table` and subject to `C18_lockset`). -/
+theorem no_setup_function_in_run_phase : TaskModel.Gen.Access.setupPromoted = [] := by decide
+
+/-- the reachable set is not empty: the call graph found the executor -/
+theorem run_phase_nonempty : TaskModel.Gen.Access.runReachableFunctions ≥ 150 := by decide
+
+/-! ## the confinement claims, checked by a syntactic escape search -/
+
+/-- `Run` starts one goroutine per top-level call under `--parallel` and hands it that call: each `*Call`
+goes to exactly one goroutine and `Run` does not touch it afterwards. -/
+def escape_run_parallel : String × String × String := ("task.Call", "captured by a .Go( callback", "task:Executor.Run")
+
+/-- watch mode (outside every model) -/
+def escape_watch : String × String × String := ("task.Call", "captured by a go statement", "task:Executor.watchTasks")
+
+/-- **Confinement claims are checked**: a value of a type the classification calls confined
+(per call / per command) is nowhere stored into a field of a non-confined struct or a package-level
+variable, sent on a channel, or captured by a goroutine's function literal — except the reviewed places. -/
+theorem confined_no_escape :
+    TaskModel.Gen.Access.confinedEscapes = [escape_run_parallel, escape_watch] := by decide
+
+/-- **Copiers return fresh objects**: no function of the run-phase packages returns one of its own
+pointer / map / slice parameters unchanged (an "empty: nothing to do, return the argument" shortcut in a
+copier makes a per-call object an alias of the shared definition). -/
+theorem copiers_return_fresh : TaskModel.Gen.Access.returnsParam = [] := by decide
+
+/-- **The compiled task holds only fresh copies**: everything `compiledTask` appends to the command,
+dependency and precondition lists of the task it hands to an activation is the result of a `DeepCopy()`
+(that is what makes `runDeferred`'s write of `cmd.Cmd`, and the bases the classification calls
+"fresh copies", private to one activation). -/
+theorem compiled_task_holds_copies : TaskModel.Gen.Access.compiledAppends =
+    [("Cmds", "‹range ‹*ast.Task›.Cmds›.DeepCopy()"), ("Cmds", "‹‹*ast.Cmd›.DeepCopy()›"),
+     ("Deps", "‹‹*ast.Dep›.DeepCopy()›"), ("Preconditions", "‹‹*ast.Precondition›.DeepCopy()›")] := by decide
+
+/-! ## the channel exemption, computed from the ordering facts -/
+
+/-- the only channel-ordered location is `execution.err` … -/
+theorem chanSync_is : chanSync = ["task.execution.err"] := by decide
+
+/-- … and every lock-free access to a field of a struct with a closed channel field, anywhere in the
+module, is ordered: writes by the creating activation before its `close(done)`, reads there or after
+a receive from `done` -/
+theorem chanSync_ordered : (TaskModel.Gen.Access.chanOrdered.map chanFactOf).all roleOk = true := by decide
+
+/-- the facts are not empty (the extractor found the write before the close and the read after the receive) -/
+theorem chanSync_nonvacuous :
+    (TaskModel.Gen.Access.chanOrdered.map chanFactOf).any (fun f => f.write && f.role == "before-close") = true ∧
+    (TaskModel.Gen.Access.chanOrdered.map chanFactOf).any (fun f => !f.write && f.role == "after-recv") = true := by decide
+
+/-! ## what the discipline means: no race state in any interleaving -/
+open TaskModel.Race.Threads
+
+/-- **No race state, all schedules** — any number of threads, any bodies (that only unlock what
+they hold), any interleaving of any length: if every two conflicting access positions of different
+threads share a statically held mutex or are ordered by a channel close, no reachable state has two
+threads both positioned at conflicting accesses. -/
+theorem C18_no_race_state {M L C : Type} [DecidableEq M] [DecidableEq C] (P : Prog M L C)
+    (hwf : ∀ b ∈ P, WF b) (hd : Discipline P) (s : State M C) (hr : Reach P s) : ¬ RaceState P s :=
+  no_race_state P hwf hd s hr
+
+/-- the invariant behind it: in every reachable state a mutex is in a thread's static lockset exactly
+when that thread owns it -/
+theorem C18_lockset_is_ownership {M L C : Type} [DecidableEq M] [DecidableEq C] (P : Prog M L C)
+    (hwf : ∀ b ∈ P, WF b) (s : State M C) (hr : Reach P s) (t : Nat) (m : M) :
+    m ∈ heldAt (body P t) (s.pc t) ↔ s.owner m = some t :=
+  held_iff_owner P hwf s hr t m
+
+/-- the same for threads drawn from a SET of bodies that keeps the lockset discipline -/
+theorem C18_no_race_state_bodies {M L C : Type} [DecidableEq M] [DecidableEq C] (B : Body M L C → Prop)
+    (hB : LocksetDiscipline B) (hwfB : ∀ b, B b → WF b) (P : Prog M L C) (hP : ∀ b ∈ P, B b)
+    (s : State M C) (hr : Reach P s) : ¬ RaceState P s :=
+  no_race_state_of_bodies B hB hwfB P hP s hr
+
+/-- **The `done` channel**: locations written by the one closer before `close c` and read by others
+only after `recv c`, everything else under the lockset rule — no race state. -/
+theorem C18_chan_ordered {M L C : Type} [DecidableEq M] [DecidableEq C] [DecidableEq L] (P : Prog M L C)
+    (hwf : ∀ b ∈ P, WF b) (hd : MixedDiscipline P) (s : State M C) (hr : Reach P s) : ¬ RaceState P s :=
+  chan_ordered_no_race P hwf hd s hr
+
+/-- **Corollary over the generated table**: any program whose access positions are rows of `table`
+(location, kind, and the row's mutexes statically held there) and whose `chanSync` locations are
+published through a channel has no reachable race state. -/
+theorem C18_no_race_state_table {C : Type} [DecidableEq C] (P : Prog String String C)
+    (hwf : ∀ b ∈ P, WF b) (hcov : Covered table P)
+    (hchan : ∀ l, l ∈ chanSync → ∃ c t0, ChanSynced P c l t0)
+    (s : State String C) (hr : Reach P s) : ¬ RaceState P s :=
+  no_race_state_of_table table C18_lockset P hwf hcov hchan s hr
+
+/-- the critical sections the rows stand for only unlock what they hold -/
+theorem C18_rows_wellformed : table.all (fun r => wfBody (rowBody r)) = true := by decide
+
+/-- **The table as a program**: any number of threads, each running the critical section
+`lock locks…; access loc; unlock …` of any row of `table` (channel-ordered rows aside) — no
+interleaving reaches a state with two threads at conflicting accesses. -/
+theorem C18_no_race_state_rows (threads : List Access) (hmem : ∀ r ∈ threads, r ∈ table ∧ r.loc ∉ chanSync)
+    (s : State String Unit) (hr : Reach (rowProg threads) s) : ¬ RaceState (rowProg threads) s :=
+  no_race_state_of_rows table C18_lockset C18_rows_wellformed threads hmem s hr
+
+/-- non-vacuity of `C18_no_race_state_rows`: three threads on two rows of the real table that conflict
+(the read and the write of `Compiler.dynamicCache` in `HandleDynamicVar`) meet the hypotheses, and both
+orders of entering the critical section are runnable -/
+example : ∃ r1 r2, r1 ∈ table ∧ r2 ∈ table ∧ r1.loc ∉ chanSync ∧ conflict r1 r2 = true ∧
+    runnable (rowProg [r1, r2, r2]) [0, 0, 0, 1, 1, 1, 2, 2, 2] = true ∧
+    runnable (rowProg [r1, r2, r2]) [2, 2, 2, 0, 0, 0] = true ∧
+    runnable (rowProg [r1, r2, r2]) [0, 1] = false :=
+  ⟨⟨"task.Compiler.dynamicCache", "task:Compiler.HandleDynamicVar", "c", false, ["task.Compiler.muDynamicCache"]⟩,
+   ⟨"task.Compiler.dynamicCache", "task:Compiler.HandleDynamicVar", "c", true, ["task.Compiler.muDynamicCache"]⟩,
+   by decide, by decide, by decide, by decide, by decide, by decide, by decide⟩
+
+/-- the skeleton of `startExecution` as a program of the model: thread 0 registers its execution under the
+dedup mutex, runs it, writes the outcome, returns it (a read) and closes `done` (deferred: last); threads 1
+and 2 find the execution under the mutex, wait for `done` and read the outcome -/
+def startExecutionSkeleton : Prog String String String :=
+  [[.lock "task.Executor.executionHashesMutex", .access "task.Executor.executionHashes" false,
+    .access "task.Executor.executionHashes" true, .unlock "task.Executor.executionHashesMutex",
+    .access "task.execution.err" true, .access "task.execution.err" false, .close "done"],
+   [.lock "task.Executor.executionHashesMutex", .access "task.Executor.executionHashes" false,
+    .unlock "task.Executor.executionHashesMutex", .recv "done", .access "task.execution.err" false],
+   [.lock "task.Executor.executionHashesMutex", .access "task.Executor.executionHashes" false,
+    .unlock "task.Executor.executionHashesMutex", .recv "done", .access "task.execution.err" false]]
+
+/-- non-vacuity of `C18_no_race_state_table`, channel part included: the skeleton's access positions are rows
+of the real table, its `chanSync` location is published through `done` by thread 0, so NO interleaving of it
+reaches a race state — while waiters and the registered execution do interleave -/
+theorem startExecution_skeleton_no_race (s : State String String) (hr : Reach startExecutionSkeleton s) :
+    ¬ RaceState startExecutionSkeleton s := by
+  apply C18_no_race_state_table startExecutionSkeleton _ (coveredB_sound _ _ (by decide)) _ s hr
+  · intro b hb
+    have : startExecutionSkeleton.all wfBody = true := by decide
+    exact wfBody_spec b ((List.all_eq_true.mp this) b hb)
+  · intro l hl
+    rw [chanSync_is] at hl
+    simp only [List.mem_singleton] at hl
+    subst hl
+    exact ⟨"done", 0, chanSyncedB_sound _ _ _ _ (by decide)⟩
+
+example : runnable startExecutionSkeleton [0, 0, 0, 0, 1, 1, 1, 2, 2, 0, 2, 0, 0, 1, 2, 2, 1] = true := by decide
+example : runnable startExecutionSkeleton [1, 1, 1, 1] = false := by decide   -- a waiter blocks until the close
+
+/-- a violating table IS racy in the model: the unlocked write of the r7 mutant next to the unlocked read -/
+theorem C18_unlocked_rows_race :
+    ∃ s, Reach (rowProg [⟨"task.Executor.fuzzyModel", "task:Executor.setupFuzzyModel", "e", true, []⟩,
+                          ⟨"task.Executor.fuzzyModel", "task:Executor.GetTask", "e", false, []⟩]) s ∧
+      RaceState (rowProg [⟨"task.Executor.fuzzyModel", "task:Executor.setupFuzzyModel", "e", true, []⟩,
+                          ⟨"task.Executor.fuzzyModel", "task:Executor.GetTask", "e", false, []⟩]) s :=
+  race_reachable_of_schedule _ [] (by decide)
 
 /-- non-vacuity: the discipline rejects an unlocked write next to a locked read -/
 example : disciplineOk [⟨"T.f", "f1", "x", true, []⟩, ⟨"T.f", "f2", "x", false, ["T.mu"]⟩] = false := by decide
